@@ -162,11 +162,18 @@ def accessors(repo, res):
     # coercion of quantity lists
     co = arr.func("_coerce_iterable_units")
     res.fn(co)
-    t = norm(co.node)
-    ok = "ff = getattr(input_object[0], 'units', NULL_UNIT)" in t and "ret.append(datum.in_units(ff.units))" in t and "ret = unyt_array(np.array(ret), ff, registry=registry)" in t and "raise IterableUnitCoercionError(str(input_object))" in t
-    res.check(ok, "coerce-list", co.where(), "a list of quantities in mixed units is converted element by element into the first element's unit; failure raises IterableUnitCoercionError", rid=r2)
-    mixed = [n for n in ast.walk(co.node) if isinstance(n, ast.If) and norm(n.test) == "any((ff != getattr(_, 'units', NULL_UNIT) for _ in input_object))"]
-    res.check(len(mixed) == 1, "coerce-list:test", co.where(), "mixed units are detected by comparing every element's unit with the first", rid=r2)
+    from engine.pat import find_all
+
+    io = co.params[0]
+    b = find_all(co.node, [
+        f"__first = getattr({io}[0], 'units', NULL_UNIT)",
+        f"__acc.append(__el.in_units(__first.units))",
+        f"__ret = unyt_array(np.array(__acc), __first, registry=registry)",
+        f"raise IterableUnitCoercionError(str({io}))",
+    ])
+    res.check(b is not None, "coerce-list", co.where(), "a list of quantities in mixed units is converted element by element into the first element's unit; failure raises IterableUnitCoercionError", rid=r2)
+    b2 = find_all(co.node, [f"__first = getattr({io}[0], 'units', NULL_UNIT)", f"any((__first != getattr(_c0, 'units', NULL_UNIT) for _c0 in {io}))"])
+    res.check(b2 is not None, "coerce-list:test", co.where(), "mixed units are detected by comparing every element's unit with the first", rid=r2)
 
 
 def metadata(repo, res):
